@@ -176,11 +176,16 @@ class Workload(object):
     p.apply([['BulkAddRecord', 'T', [None] * 4, {'A': [1, 2, 3, 4], 'K': ['a', 'b', 'a', ''], 'L': [['L', 'x'], None, ['L', 'x', 'y'], None],
                                                'R': [1, 2, 0, 1]}]])
     p.apply([self.add_empty()])
-    p.apply([self.add_empty()])
+    p.apply([self.add_empty('Int')])
 
-  def add_empty(self):
-    """The user action that adds a new empty column (isFormula with no formula, type Any)."""
+  def add_empty(self, typ=None):
+    """The user action that adds a new empty column (isFormula with no formula): of type Any, or - as when a user
+    picks a column type before entering any data - of a given type."""
     self.nE += 1
+    if typ is None and self.nE > 2:
+      typ = self.r.choice([None, None, 'Int', 'Numeric', 'Text', 'Date', 'Bool', 'Choice'])
+    if typ:
+      return ['AddColumn', 'T', 'E%d' % self.nE, {'type': typ, 'isFormula': True, 'formula': ''}]
     return ['AddColumn', 'T', 'E%d' % self.nE, {}]
 
   # ---- generator
